@@ -197,7 +197,7 @@ _mk("C07",
     extra_tb=["strconv.ParseFloat (oracle)"], exhaustive=True)
 
 _mk("C01",
-    ["Platypus.Properties.C01", "Platypus.Properties.C01Bridge", "Platypus.Properties.BuiltinFacts", "Platypus.Properties.C17Runtime"],
+    ["Platypus.Properties.C01", "Platypus.Properties.C01Bridge", "Platypus.Properties.C01Full", "Platypus.Properties.BuiltinFacts", "Platypus.Properties.C17Runtime"],
     rule="random programs over the whole grammar from the typed generator with 1-in-5 ill-typed operands, extreme integers (+-2^53+-1, min/max int64), negative/reversed/out-of-range/overflowing slice bounds and steps, "
          "object-less index expressions, attribute expressions, every builtin with the argument shapes its checker accepts, exit(), on random points (tags/fields of every type, nil, colliding names); "
          "each program is loaded and run by the real engine in a worker process (panic, fatal error, timeout and OOM are classified) and by the model; "
